@@ -747,3 +747,179 @@ def load_corpus(pid):
 # a non-terminating implementation call must not block the check (see common.limited)
 import common as _common  # noqa: E402
 _common.limit_impl(globals(), ['impl_extract', 'impl_is_html', 'impl_consume_quoted'])
+
+
+# ------------------------------------------------------------------ complete HTML tags in every spelling of their names
+# Round trip after a complete HTML tag whose NAMES are spelled with every character an HTML name is made of.
+# Documented facts used here (HTML Living Standard; nothing is read from the library):
+#   * 13.1.2 Elements: "Tags contain a tag name ... HTML elements all have names that only use ASCII alphanumerics.
+#     In the HTML syntax, tag names, even those for foreign elements, may be written with any mix of lower- and
+#     uppercase letters" (<DIV>, <Div> and <div> are the same start tag; the tag name starts with a letter).
+#   * 13.1.2.3 Attributes: attribute names "may be written with any mix of ASCII lower and ASCII upper alphas";
+#     SVG / MathML attributes and elements have mixed-case canonical names (viewBox, preserveAspectRatio,
+#     foreignObject, linearGradient, clipPath -- 13.2.6.5 lists them), JSX-like templates write onClick / className.
+#   * 4.13.3 valid custom element names contain '-'; XML-style names (xlink:href, xml:lang, xsl:template) contain ':'.
+#   * 13.1.2.3 unquoted attribute values: any characters but white space, " ' = < > `.
+# Hence the identifier alphabet of a tag: ASCII letters of BOTH cases, ASCII digits, '-' and ':'.
+ASCII_UPPER = 'ABCDEFGHIJKLMNOPQRSTUVWXYZ'
+ASCII_LOWER = 'abcdefghijklmnopqrstuvwxyz'
+ASCII_DIGITS = '0123456789'
+TAG_IDENT_CHARS = ASCII_UPPER + ASCII_LOWER + ASCII_DIGITS + '-:'
+
+# Further characters that HTML allows in attribute names (everything but white space, " ' > / = and controls:
+# data_x, v-on:click.prevent, @click, [prop], #ref) and in custom element names after the hyphen ('_', '.').
+# OFF: this class fails on the UNCHANGED library (and in upstream Emmet): is_html.is_ident() knows letters, digits,
+# '-' and ':' only, so '<a data_x>p' gives 'data_x>p' and '<a data_x=1>p' gives '1>p' (a tag ending in a quoted
+# value is still right because a quote is no abbreviation character).  Reported, not listed; switch on to see it.
+TAG_NAME_CHARS_BEYOND_IDENT = False
+TAG_EXTRA_NAME_CHARS = '_.@#'
+
+# '@' marks the place of the swept character; (position kind, shape, letters only?)
+TAG_CHAR_SHAPES = [
+    ('tag-name', '<@>', True), ('tag-name', '</@>', True), ('tag-name', '<@x>', True),
+    ('tag-name', '<x@>', False), ('tag-name', '<x@y>', False), ('tag-name', '</x@>', False), ('tag-name', '</x@ >', False),
+    ('tag-name', '<x@/>', False), ('tag-name', '<x@ />', False), ('tag-name', '<x@ a="b">', False), ('tag-name', '<x@\tb>', False),
+    ('tag-name', 'text <x@>', False), ('tag-name', '<p>hi</p><x@ c=d>', False),
+    ('attribute-name', '<a @>', False), ('attribute-name', '<a b@>', False), ('attribute-name', '<a @b>', False),
+    ('attribute-name', '<a b@ c>', False), ('attribute-name', '<a b@/>', False), ('attribute-name', '<a b@ />', False),
+    ('attribute-name', '<a b@="v">', False), ('attribute-name', "<a @b='v w'>", False), ('attribute-name', '<a b@=v>', False),
+    ('attribute-name', '<a @=v c>', False), ('attribute-name', '<a b@=v />', False), ('attribute-name', '<a c="d" b@>', False),
+    ('unquoted-value', '<a b=@>', False), ('unquoted-value', '<a b=v@>', False), ('unquoted-value', '<a b=@v>', False),
+    ('unquoted-value', '<a b=v@ c>', False), ('unquoted-value', '<a b=@ c="d">', False), ('unquoted-value', '<a b=v@ />', False),
+    ('unquoted-value', '<a c b=@\t>', False),
+]
+# abbreviations embedded right of the swept tags (accepted by the parser: checked at run time), rotating
+TAG_SWEEP_ABBRS = ['bar', 'ul>li*3', 'A.b', 'h1#id.cls', 'p{t}', 'a[b=c]', 'x-y:z', '(a+b)', 'Foo>Bar', 'li*']
+TAG_SWEEP_ABBRS_CSS = ['m10', 'c#f00', 'p10-20!']
+
+
+def char_class(c):
+    if c in ASCII_UPPER:
+        return 'upper-case-letter'
+    if c in ASCII_LOWER:
+        return 'lower-case-letter'
+    if c in ASCII_DIGITS:
+        return 'digit'
+    return {'-': 'dash', ':': 'colon'}.get(c, 'other-name-character')
+
+
+def tag_char_lefts():
+    """(kind, left text): every shape of TAG_CHAR_SHAPES with every identifier character in the marked place"""
+    chars = TAG_IDENT_CHARS + (TAG_EXTRA_NAME_CHARS if TAG_NAME_CHARS_BEYOND_IDENT else '')
+    out = []
+    for where, shape, letters_only in TAG_CHAR_SHAPES:
+        for c in chars:
+            if letters_only and c not in ASCII_UPPER + ASCII_LOWER:
+                continue
+            out.append(('tag:%s:%s' % (where, char_class(c)), shape.replace('@', c)))
+    return out
+
+
+def tag_char_sweep(markup_abbrs, css_abbrs):
+    """round-trip cases: every swept tag x (rotating abbreviation) x look-ahead on/off, markup and stylesheet"""
+    out = []
+    k = 0
+    for lk, left in tag_char_lefts():
+        k += 1
+        a = markup_abbrs[k % len(markup_abbrs)]
+        rk, right = RIGHTS[k % len(RIGHTS)] if k % 4 == 0 else RIGHTS[0]
+        for look in (True, False):
+            out.append(RT(left, a, right, 0, {'type': 'markup', 'lookAhead': look}, lk, rk))
+        a = css_abbrs[k % len(css_abbrs)]
+        out.append(RT(left, a, right, 0, {'type': 'stylesheet', 'lookAhead': bool(k % 2)}, lk, rk))
+    return out
+
+
+# names as they are really written (HTML 13.2.6.5 SVG tables, DOM event handler attributes, JSX, XML namespaces)
+CASED_TAG_NAMES = ['DIV', 'Div', 'dIV', 'A', 'P', 'H1', 'TD', 'BR', 'Br', 'UL', 'MyComponent', 'svg', 'foreignObject',
+                   'linearGradient', 'clipPath', 'feGaussianBlur', 'X-Foo', 'my-Element', 'Ns:El', 'xsl:Template', 'SVG:Rect',
+                   'h2', 'H2h', 'a1B2']
+CASED_ATTR_NAMES = ['viewBox', 'onClick', 'onclick', 'ONCLICK', 'tabIndex', 'className', 'data-X', 'DATA-ID', 'aria-Label',
+                    'xlink:Href', 'xml:Lang', 'preserveAspectRatio', 'gradientUnits', 'B1', 'Hidden', 'v-bind:Foo', 'A', 'x', 'Z9']
+CASED_UNQUOTED = ['Go', 'TRUE', 'X-1', '10PX', 'Abc', 'camelCase', 'A', 'b', '1', 'x:Y', 'Foo_Bar', '#Top', 'a.B', '100%', 'UTF-8']
+CASED_QUOTED = ['', 'B', 'Hello World', '0 0 10 10', 'go()', 'A>B', "It's", 'x', 'URL(#G)']
+
+
+def gen_cased_tag(rng):
+    """a complete, well-formed HTML tag whose tag / attribute names and unquoted values mix both letter cases"""
+    def ws(lo=1):
+        return ''.join(rng.choice(' \t') for _ in range(rng.randint(lo, 2)))
+    nm = rng.choice(CASED_TAG_NAMES)
+    if rng.random() < 0.15:
+        return '</' + nm + ws(0) + '>'
+    s = '<' + nm
+    for _ in range(rng.randint(0, 3)):
+        s += ws()
+        an = rng.choice(CASED_ATTR_NAMES)
+        r = rng.random()
+        if r < 0.3:
+            s += an
+        elif r < 0.65:
+            s += an + '=' + rng.choice(CASED_UNQUOTED)
+        elif r < 0.9:
+            s += an + '="' + rng.choice([v for v in CASED_QUOTED if '"' not in v]) + '"'
+        else:
+            s += an + "='" + rng.choice([v for v in CASED_QUOTED if "'" not in v]) + "'"
+    s += rng.choice(['', '', ws(), ws() + '/', '/'])
+    return s + '>'
+
+
+RECASE_MODES = ['upper', 'title', 'random', 'inner']
+
+
+def recase(text, rng, mode=None):
+    """[text] with its ASCII letters in another case: all upper / first letter of each word upper / each letter at
+    random / one letter inside each word upper (camelCase).  Returns (mode, new text)."""
+    mode = mode or rng.choice(RECASE_MODES)
+    if mode == 'upper':
+        return mode, text.upper() if text.isascii() else ''.join(c.upper() if c in ASCII_LOWER else c for c in text)
+    out = []
+    i = 0
+    n = len(text)
+    while i < n:
+        if text[i] in ASCII_LOWER + ASCII_UPPER:
+            j = i
+            while j < n and text[j] in ASCII_LOWER + ASCII_UPPER:
+                j += 1
+            w = text[i:j]
+            if mode == 'title':
+                w = w[0].upper() + w[1:]
+            elif mode == 'random':
+                w = ''.join(c.upper() if rng.random() < 0.5 else c.lower() for c in w)
+            else:
+                p = rng.randint(0, len(w) - 1) if len(w) < 2 else rng.randint(1, len(w) - 1)
+                w = w[:p] + w[p].upper() + w[p + 1:]
+            out.append(w)
+            i = j
+        else:
+            out.append(text[i])
+            i += 1
+    return mode, ''.join(out)
+
+
+def tag_case_rt(rng, abbr, markup, n):
+    """n embeddings of one abbreviation right of a complete HTML tag spelled in mixed case: tags built from
+    really used mixed-case names, and the lower-case tag contexts of LEFTS / gen_clean_tag re-cased"""
+    ty = 'markup' if markup else 'stylesheet'
+    closers = CLOSERS if markup else ')'
+    tags = [t for k, t in LEFTS if k == 'tag']
+    out = []
+    for _ in range(n):
+        r = rng.random()
+        if r < 0.45:
+            lk, left = 'tag:mixed-case-names', gen_cased_tag(rng)
+        elif r < 0.75:
+            m, left = recase(gen_clean_tag(rng), rng)
+            lk = 'tag:re-cased:' + m
+        else:
+            m, left = recase(rng.choice(tags), rng)
+            lk = 'tag:re-cased:' + m
+        if rng.random() < 0.25:
+            left = rng.choice(['x ', 'Some Text ', '<P>Hi</P>', '\t', 'A>B ', '<I>']) + left
+        rk, right = rng.choice(RIGHTS)
+        for look in (True, False):
+            out.append(RT(left, abbr, right, 0, {'type': ty, 'lookAhead': look}, lk, rk))
+        tails = auto_closed_tail(abbr, markup)
+        if tails and rng.random() < 0.5 and not (right[:1] and right[0] in closers):
+            out.append(RT(left, abbr, right, rng.choice(tails), {'type': ty, 'lookAhead': True}, lk, 'auto-closed+' + rk))
+    return out
